@@ -189,6 +189,49 @@ def fill_fs(path, dicts):
     return refused
 
 
+def instant_us(x):
+    """Microseconds since the epoch of a `modified` value (datetime or timestamp text); None if it is neither."""
+    try:
+        d = stix2.utils.parse_into_datetime(x)
+        if d.tzinfo is None:
+            d = pytz.utc.localize(d)
+        return us_of(d)
+    except Exception:  # noqa: BLE001
+        return None
+
+
+def listing(root, dicts, offset):
+    """os.listdir order of a FileSystemSink tree -- the order FileSystemSource meets directories and files in:
+    [[type dir, [[entry name, None | [[version file name, index of that object in the population], ...]], ...]], ...]"""
+    by_key = {}
+    for i, d in enumerate(dicts):
+        if "modified" in d:
+            by_key[(d.get("id"), instant_us(d["modified"]))] = i + offset
+    out = []
+    for tdir in os.listdir(root):
+        tp = os.path.join(root, tdir)
+        if not os.path.isdir(tp):
+            continue
+        ents = []
+        for e in os.listdir(tp):
+            ep = os.path.join(tp, e)
+            if os.path.isdir(ep):
+                files = []
+                for f in os.listdir(ep):
+                    try:
+                        with open(os.path.join(ep, f), encoding="utf-8") as fh:
+                            o = json.load(fh)
+                        idx = by_key.get((o.get("id"), instant_us(o.get("modified"))))
+                    except Exception:  # noqa: BLE001
+                        idx = None
+                    files.append([f, idx])
+                ents.append([e, files])
+            else:
+                ents.append([e, None])
+        out.append([tdir, ents])
+    return out
+
+
 def handle(case):
     dicts = [dec(o) for o in case["pop"]]
     k = case.get("split", 0)
@@ -206,6 +249,7 @@ def handle(case):
             os.mkdir(d2)
             res["build"]["fs_refused"] = fill_fs(d1, dicts)
             res["build"]["fs2_refused"] = fill_fs(d2, dicts[k:])
+            res["listing"] = {"all": listing(d1, dicts, 0), "part": listing(d2, dicts[k:], k)}
             fs = FileSystemSource(d1, allow_custom=True)
             ma = MemorySource(stix_data=[dict(d) for d in dicts[:k]], allow_custom=True) if dicts[:k] else MemorySource(allow_custom=True)
             fb = FileSystemSource(d2, allow_custom=True)
